@@ -26,17 +26,28 @@ pub struct Cfg {
     cancel: bool,
     per_request: bool,
     fixed_t_us: u64,
+    /// builder order: cancel_running_future() before the timeout source, or after
+    cancel_first: bool,
     calls: Vec<Call>,
+}
+
+/// "no limit" timeouts: an unusual but valid configuration
+const HUGE: [u64; 2] = [u64::MAX, 366 * 86_400_000_000];
+
+fn dur(us: u64) -> Duration {
+    if us == u64::MAX { Duration::MAX } else { Duration::from_micros(us) }
 }
 
 pub fn gen(rng: &mut Prng) -> Cfg {
     let per_request = rng.chance(0.5);
-    let fixed_t_us = *rng.pick(&[1000u64, 10_000, 50_000]);
+    let fixed_t_us = if rng.chance(0.06) { *rng.pick(&HUGE) } else { *rng.pick(&[1000u64, 10_000, 50_000]) };
     let n = rng.range(1, 6);
     let mut calls = vec![];
     for _ in 0..n {
-        let t = if per_request { *rng.pick(&[1000u64, 10_000, 50_000, 5000]) } else { fixed_t_us };
-        let lat = match rng.below(8) {
+        let t = if per_request { if rng.chance(0.08) { *rng.pick(&HUGE) } else { *rng.pick(&[1000u64, 10_000, 50_000, 5000]) } } else { fixed_t_us };
+        let lat = if t >= HUGE[1] {
+            *rng.pick(&[Lat::Us(0), Lat::Us(5000), Lat::Us(200_000)])
+        } else { match rng.below(8) {
             0 => Lat::Us(0),
             1 => Lat::Us(t - 1000),
             2 | 3 => Lat::Us(t),
@@ -44,10 +55,10 @@ pub fn gen(rng: &mut Prng) -> Cfg {
             5 => Lat::Us(3 * t),
             6 => Lat::Never,
             _ => Lat::Us(rng.below(2 * t / 1000 + 1) * 1000),
-        };
+        } };
         calls.push(Call { arrive_us: rng.below(6) * 1000 * if rng.chance(0.5) { 1 } else { 5 }, t_us: t, lat, fail: rng.chance(0.3), pause: rng.chance(0.2) });
     }
-    Cfg { cancel: rng.chance(0.5), per_request, fixed_t_us, calls }
+    Cfg { cancel: rng.chance(0.5), per_request, fixed_t_us, cancel_first: rng.chance(0.5), calls }
 }
 
 fn map_err(e: &TimeLimiterError<PErr>) -> Outcome {
@@ -73,16 +84,27 @@ pub fn run(cfg: &Cfg, seed: u64) -> (Arc<World>, crate::sim::SimStats) {
                         Lat::Us(n) => n,
                         _ => 0,
                     };
-                    end = end.max(c.arrive_us + l.max(c.t_us) + 5000);
+                    end = end.max(c.arrive_us + l.max(if c.t_us >= HUGE[1] { 0 } else { c.t_us }) + 5000);
                 }
             }};
         }
-        if cfg.per_request {
-            let layer = TimeLimiterLayer::builder().timeout_fn(|r: &Req| Duration::from_micros(r.payload)).cancel_running_future(cfg.cancel).build();
-            go!(layer);
-        } else {
-            let layer = TimeLimiterLayer::builder().timeout_duration(Duration::from_micros(cfg.fixed_t_us)).cancel_running_future(cfg.cancel).build();
-            go!(layer);
+        match (cfg.per_request, cfg.cancel_first) {
+            (true, false) => {
+                let layer = TimeLimiterLayer::builder().timeout_fn(|r: &Req| dur(r.payload)).cancel_running_future(cfg.cancel).build();
+                go!(layer);
+            }
+            (true, true) => {
+                let layer = TimeLimiterLayer::builder().cancel_running_future(cfg.cancel).timeout_fn(|r: &Req| dur(r.payload)).build();
+                go!(layer);
+            }
+            (false, false) => {
+                let layer = TimeLimiterLayer::builder().timeout_duration(dur(cfg.fixed_t_us)).cancel_running_future(cfg.cancel).build();
+                go!(layer);
+            }
+            (false, true) => {
+                let layer = TimeLimiterLayer::builder().cancel_running_future(cfg.cancel).timeout_duration(dur(cfg.fixed_t_us)).build();
+                go!(layer);
+            }
         }
         // keep virtual time running past the slowest inner call to see background completion
         sim.at(end, What::Nop);
@@ -154,7 +176,7 @@ pub fn judge(cfg: &Cfg, log: &[Rec]) -> Report {
             None => continue,
         };
         let t = c.t_us;
-        let deadline = start + t;
+        let deadline = start.saturating_add(t);
         let (rt, out) = match resolve.get(&id) {
             Some(x) => x.clone(),
             None => {
@@ -192,7 +214,7 @@ pub fn judge(cfg: &Cfg, log: &[Rec]) -> Report {
             }
         }
         if let Lat::Us(l) = c.lat {
-            if l + 1000 == t || l == t + 1000 {
+            if l + 1000 == t || l == t.saturating_add(1000) {
                 near += 1;
             }
         }
@@ -215,7 +237,7 @@ pub fn judge(cfg: &Cfg, log: &[Rec]) -> Report {
     }
     rep.count("timeouts", timeouts);
     rep.count("near_deadline_calls", near);
-    rep.bucket(format!("{mode} per_request={}", cfg.per_request));
+    rep.bucket(format!("{mode} per_request={} cancel_first={} huge={}", cfg.per_request, cfg.cancel_first, cfg.calls.iter().any(|c| c.t_us >= HUGE[1])));
     rep.nontrivial = timeouts >= 1 && near >= 1;
     rep
 }
